@@ -2337,6 +2337,48 @@ func paddedBinaryProbe(c *Ctx) {
 	}
 }
 
+// unrenderableDetailProbe (F38): a handler's error carries a detail the Connect protocol cannot
+// write as JSON (an Any whose type is not linked into this binary - a forwarding handler passes
+// such details on). The detail may be lost on that protocol; the error is not: code, message and
+// metadata arrive, and the response keeps its shape (an end-of-stream envelope, a JSON body).
+func unrenderableDetailProbe(c *Ctx) {
+	for _, proto := range []string{"connect", "grpc", "grpcweb"} {
+		for _, kind := range []string{"unary", "server"} {
+			fail := func() error {
+				e := connect.NewError(connect.CodeResourceExhausted, errors.New("quota"))
+				e.Meta().Set("X-Why", "w1")
+				e.AddDetail(&anypb.Any{TypeUrl: "type.googleapis.com/acme.v1.NotLinkedIn", Value: []byte{8, 1}})
+				return e
+			}
+			var h http.Handler
+			if kind == "unary" {
+				h = connect.NewUnaryHandler("/s/m", func(ctx context.Context, r *connect.Request[[]byte]) (*connect.Response[[]byte], error) {
+					return nil, fail()
+				}, connect.WithCodec(rawCodec{"raw"}))
+			} else {
+				h = connect.NewServerStreamHandler("/s/m", func(ctx context.Context, r *connect.Request[[]byte], s *connect.ServerStream[[]byte]) error {
+					_ = s.Send(&[]byte{1})
+					return fail()
+				}, connect.WithCodec(rawCodec{"raw"}))
+			}
+			desc := fmt.Sprintf("%s %s handler returns resource_exhausted with metadata and a detail of a type this binary does not know", proto, kind)
+			c.Begin(desc)
+			c.Count("unrenderable-detail-probe")
+			got := safely(func() string {
+				v := callClient(proto, kind, &inprocClient{h: h}, nil, [][]byte{{1}})
+				var ce *connect.Error
+				if !errors.As(v.err, &ce) {
+					return fmt.Sprintf("no coded error: %v", v.err)
+				}
+				return fmt.Sprintf("code=%s message=%q X-Why=%q", ce.Code(), ce.Message(), ce.Meta().Values("X-Why"))
+			})
+			if want := `code=resource_exhausted message="quota" X-Why=["w1"]`; got != want {
+				c.Fail("rt-error-unrenderable-detail", desc, got, "the error reaches the client with its code, message and metadata: "+want)
+			}
+		}
+	}
+}
+
 func extraProbes(c *Ctx) {
 	metadataProbes(c)
 	failingCompressorProbe(c, "wire-error-mislabelled")
@@ -2362,6 +2404,7 @@ func extraProbes(c *Ctx) {
 	non200GrpcStatusProbe(c)
 	emptyWebTrailerProbe(c)
 	paddedBinaryProbe(c)
+	unrenderableDetailProbe(c)
 	// (1) every error a client API returns can be inspected as a Connect error — including the one
 	// from closing a response whose body fails while being drained
 	for _, proto := range []string{"connect", "grpc", "grpcweb"} {
